@@ -139,6 +139,16 @@ CHECKS = {
             'directory snapshot unchanged. Two concurrent writers are stepped site by site.',
             'One fault per call, injected at the granularity of the Python-level os/tempfile/py_compile calls the '
             'writers make; schedules are sampled and owned by the harness (no kernel-level preemption).', '4/C13'),
+    'C14': ('exploration',
+            'Hypothesis directory trees / nested ZIP archives / stubbed HTTP servers x names x matching options against '
+            'an independent reference of the documented name variants; complete enumeration of a URL dispatch table',
+            'Generated trees and archives (sub-directories, duplicate basenames, archives nested to depth 3, invalid '
+            'UTF-8) are served through FileReader / ZipReader / HttpReader(stub urlopen) / CallbackReader; a returned '
+            'file must be an allowed variant of the request with exactly its decoded bytes and mtime, not-found is '
+            'only valid when no required variant exists, the .index mapping wins; 62 URL shapes map to the reader '
+            'kind and parameters their scheme and extension denote.',
+            'The variant reference (required / allowed sets) is my reading of the statement; any matching file is '
+            'accepted when several exist; no network: FTP only by dispatch, HTTP through a stub.', '4/C14'),
     'C11': ('exploration',
             'exhaustive prefix enumeration of generated files + Hypothesis token mutants/noise; oracle = exception '
             'type, completeness by the renderer span table, exact line of never-viable tokens; atheris in thorough',
